@@ -27,6 +27,7 @@ func Mix(seed uint64, idx uint64) uint64 {
 // convention always "the default": keep running the current task, no fault, full read,
 // sorted order. That convention is what makes tape-level shrinking meaningful.
 type Tape struct {
+	seed   uint64
 	r      rng
 	Rec    []uint32
 	src    []uint32
@@ -35,7 +36,30 @@ type Tape struct {
 	Limit  int // hard cap on draws (0 = none); past it every draw is 0
 }
 
-func NewTape(seed uint64) *Tape { return &Tape{r: rng{s: seed}} }
+func NewTape(seed uint64) *Tape { return &Tape{seed: seed, r: rng{s: seed}} }
+
+// TapeSpec describes how to rebuild a tape from its beginning in another process.
+type TapeSpec struct {
+	Replay bool     `json:"replay"`
+	Src    []uint32 `json:"src,omitempty"`
+	Seed   uint64   `json:"seed"`
+}
+
+func (t *Tape) Spec() TapeSpec { return TapeSpec{Replay: t.replay, Src: t.src, Seed: t.seed} }
+
+// Adopt makes the tape's record equal to what another process consumed when it executed the
+// same run from the beginning of the same tape.
+func (t *Tape) Adopt(dec []uint32) {
+	t.Rec = append([]uint32(nil), dec...)
+	t.pos = len(dec)
+}
+
+func (s TapeSpec) Build() *Tape {
+	if s.Replay {
+		return ReplayTape(s.Src)
+	}
+	return NewTape(s.Seed)
+}
 
 func ReplayTape(dec []uint32) *Tape {
 	cp := make([]uint32, len(dec))
